@@ -197,6 +197,9 @@ func TestVerifC01Race(t *testing.T) {
 			}
 			// windows of retired breakers no longer matter
 			haveOutcomes = false
+			for g := range got {
+				got[g] = [3]Breaker{}
+			}
 		}
 		now := timex.Now()
 		if haveOutcomes {
@@ -242,7 +245,7 @@ func TestVerifC01Race(t *testing.T) {
 					bi := lr.Intn(3)
 					rb := brks[bi]
 					inst := Get(rb.name)
-					if got[g][bi] == nil || rotate && c < 3 {
+					if got[g][bi] == nil {
 						got[g][bi] = inst
 					} else if got[g][bi] != inst {
 						m.Violate("C01:registry:identity", desc, "goroutine %d: Get(%q) returned a different instance than before", g, rb.name)
@@ -287,10 +290,11 @@ func TestVerifC01Race(t *testing.T) {
 				}
 			}(g)
 		}
+		var awg sync.WaitGroup
 		if dmax > 0 {
-			wg.Add(1)
+			awg.Add(1)
 			go func(seed int64) {
-				defer wg.Done()
+				defer awg.Done()
 				lr := rand.New(rand.NewSource(seed))
 				left := dmax
 				for left > 0 {
@@ -310,13 +314,9 @@ func TestVerifC01Race(t *testing.T) {
 			}(seeds[0] ^ 0x5bd1e995)
 			m.Count("phases_with_concurrent_clock_advance", 1)
 		}
-		// workers first, then release the advancer
-		waitWorkers := make(chan struct{})
-		go func() { wg.Wait(); close(waitWorkers) }()
-		// the advancer is part of wg; signal it once the clock budget no longer matters:
-		// it terminates by itself after at most 8+ steps, so simply wait for everything.
-		<-waitWorkers
+		wg.Wait()
 		close(done)
+		awg.Wait()
 
 		if m.ViolCount() > v0 {
 			break
@@ -376,9 +376,6 @@ func TestVerifC01Race(t *testing.T) {
 		m.Case(vk.Digest(ph, regime, admittedPh, rejectedPh), admittedPh > 0 && rejectedPh > 0)
 		if m.WantSample() && ph%23 == 2 {
 			m.Sample(map[string]any{"phase": ph, "regime": regime, "fail_percent_if_mixed": pf, "clock_moved_during_phase": (t1 - t0).String(), "admitted": admittedPh, "rejected": rejectedPh, "model_after": []int64{brks[0].acc, brks[0].tot, brks[1].acc, brks[1].tot, brks[2].acc, brks[2].tot}})
-		}
-		if rotate {
-			// forget the previous generation's registry entries lazily: names are unique per phase
 		}
 	}
 	lock.Lock()
